@@ -24,6 +24,9 @@ var ccForms = [][]string{
 	{`max-age=%d, ext="a, max-age=3600"`},
 	{`ext="x, no-store", max-age=%d`},
 	{`ext="say \"hi\", max-age=7200", max-age=%d`},
+	// a lifetime longer than a duration in nanoseconds can hold, and one longer than 64 bits: positive all the same
+	{"max-age=10000000000"},
+	{"public, max-age=99999999999999999999"},
 	{"no-store"},
 	{"no-cache"},
 	{"private"},
